@@ -98,6 +98,23 @@ theorem invT_wfail (p : Prog) (s : Sys) (w n : Nat) (h : InvT p s) : InvT p (ste
     · simp [upd, hww]
   · exact h
 
+theorem invT_giveup (p : Prog) (s : Sys) (w : Nat) (h : InvT p s) : InvT p (step p s (.giveup w)) := by
+  simp only [step]
+  split
+  · rename_i t i off hw
+    refine invT_frame p s _ h rfl rfl rfl rfl rfl (by intro k; simp [upd]) ?_
+    intro w'
+    by_cases hww : w' = w
+    · subst hww; simp [hw]
+    · simp [upd, hww]
+  · rename_i t i hw
+    refine invT_frame p s _ h rfl rfl rfl rfl rfl (by intro k; simp [upd]) ?_
+    intro w'
+    by_cases hww : w' = w
+    · subst hww; simp [hw]
+    · simp [upd, hww]
+  · exact h
+
 theorem invT_close (p : Prog) (s : Sys) (w : Nat) (h : InvT p s) : InvT p (step p s (.close w)) := by
   simp only [step]
   split
@@ -331,6 +348,7 @@ theorem invT_step (p : Prog) (s : Sys) (e : Event) (hi : Inv p s) (h : InvT p s)
   | wfail w n => exact invT_wfail p s w n h
   | close w => exact invT_close p s w h
   | rename w => exact invT_rename p s w h
+  | giveup w => exact invT_giveup p s w h
   | crash w => exact invT_crash p s w h
   | ropen r => exact invT_ropen p s r hi h
   | rread r n => exact invT_rread p s r n h
